@@ -102,7 +102,7 @@ var specs = map[string]*Spec{
 		Thorough: TierParams{Budget: 24 * time.Minute, Rounds: 6},
 		Level:    "exploration",
 		Rule: "per round a seeded batch of 200 closed, data-race-free-by-construction Go functions (go statements incl. nested and loop spawns, sync.Mutex, sync.Cond, sync.WaitGroup, machine.Sleep, machine.WaitTimeout polling loops; shared state in heap cells, captured vars, struct fields behind pointers with methods; classes: deterministic-by-construction and schedule-dependent) is generated, translated by the goose built from the working tree, and compiled (sync->simsync, go->simrt.Go, yield before every statement) into the driver. " +
-			"Each run: one program under one seeded Go schedule (uniform / sticky / PCT) gives Go's result and its order of synchronisation events; the GooseLang text of the same program is executed on the glang interpreter along that order (schedule transfer) and must give Go's result, otherwise 300 random interleavings are searched for it; deterministic-class programs are additionally run on 3 random complete interleavings each of which must return the same value without cell race, stuck thread, deadlock or divergence. The -race build re-runs the Go side only (validates that the generator's programs are race-free; a Go race is INFRA, not a violation). " +
+			"Each run: one program under one seeded Go schedule (uniform / sticky / PCT) gives Go's result and its order of synchronisation events; the GooseLang text of the same program is executed on the glang interpreter along that order (schedule transfer) and must give Go's result, otherwise 300 random interleavings are searched for it; deterministic-class programs are additionally run on 3 random complete interleavings each of which must return the same value without cell race, stuck thread, deadlock or divergence. An auxiliary non-simulation assertion (aux.api-correspondence) counts sync/machine calls in the Go source against the primitives in the emitted definition, because Signal and Broadcast are both no-ops in GooseLang and a swap is invisible to execution. The -race build re-runs the Go side only (validates that the generator's programs are race-free; a Go race is INFRA, not a violation). " +
 			"Non-trivial: the Go run had more than two context switches; distinct = distinct fingerprints of (Go event log, GooseLang interleavings).",
 		Components: map[string]string{"goose translator (cmd/goose, goose.go, types.go, internal/coq)": "real: built from /repo's working tree and run on the generated package",
 			"generated Go programs":                       "real Go code, instrumented (yields, simrt.Go); sync and the machine time primitives are stubs (simsync, simmachine on the simulated clock)",
@@ -168,7 +168,7 @@ var specs = map[string]*Spec{
 			"Non-trivial: some ReadAt returned data; distinct = distinct plans.",
 		Components:   machComponents,
 		Assumptions:  []string{"only histories that respect the documented preconditions are generated (Open/Delete of existing names, Link from an existing name, Append on Create descriptors, ReadAt on Open descriptors, Close once)", "single client, no faults, no crash; those belong to C13/C14"},
-		ExpectProbes: []string{"scribble_after_append", "scribble_after_readat", "scribble_after_atomiccreate", "list_over_100_names", "real_kernel_runs"},
+		ExpectProbes: []string{"scribble_after_append", "scribble_after_readat", "scribble_after_atomiccreate", "list_over_100_names", "real_kernel_runs", "stub_validation_scripts"},
 	},
 	"C13": {
 		ID: "C13", Title: "AtomicCreate is all-or-nothing, durable-before-visible, interference-free",
